@@ -10,6 +10,8 @@
 
 __all__ = ["ASF", "Open"]
 
+import struct
+
 from mutagen import FileType, Tags, StreamInfo
 from mutagen._util import resize_bytes, DictMixin, loadfile, convert_error
 
@@ -302,7 +304,11 @@ class ASF(FileType):
         fileobj = filething.fileobj
         # Render to file
         old_size = header.parse_size(fileobj)[0]
-        data = header.render_full(self, fileobj, old_size, padding)
+        try:
+            data = header.render_full(self, fileobj, old_size, padding)
+        except struct.error as e:
+            # a count or length that does not fit its field
+            raise ASFError(e)
         size = len(data)
         resize_bytes(fileobj, old_size, size, 0)
         fileobj.seek(0)
